@@ -489,6 +489,20 @@ def lattice_tissue(nx, ny, kind="square", npts=0, w=8.0, h=8.0, rng=None, theta=
 
 
 # --------------------------------------------------------------------------- time series
+def swap_ids(spec, a, b):
+    """exchange two vertex ids everywhere (b may be unused)"""
+    m = {a: b, b: a}
+    g = lambda i: m.get(i, i)
+    out = dict(spec)
+    out["vertices"] = [[g(i), x, y] for i, x, y in spec["vertices"]]
+    out["edges"] = [[e, g(u), g(w)] for e, u, w in spec["edges"]]
+    out["cells"] = [[c, [g(i) for i in v]] for c, v in spec["cells"]]
+    out["ifaces"] = [dict(it, pts=[g(i) for i in it["pts"]]) for it in spec.get("ifaces", [])]
+    if "maps" in spec:
+        out["maps"] = dict(spec["maps"], v={k: g(v) for k, v in spec["maps"]["v"].items()})
+    return out
+
+
 def junction_ids(spec):
     deg = {}
     for _, a, b in spec["edges"]:
@@ -508,7 +522,7 @@ def min_junction_spacing(spec):
     return float(d.min())
 
 
-def series(rng, base, nframes, field="random", amp_frac=0.3, snap=8, renumber=True, times=None):
+def series(rng, base, nframes, field="random", amp_frac=0.3, snap=8, renumber=True, times=None, zero_junction=False):
     """frames of one tissue: frame t+1 = frame t displaced by a field whose junction displacement stays below
     amp_frac * (half the smallest junction spacing) and below 8% of the extent.  Every frame is renumbered independently.
     returns (list of specs, list of times, truth) with truth[t][vid at frame t] = vid at frame t+1"""
@@ -544,6 +558,11 @@ def series(rng, base, nframes, field="random", amp_frac=0.3, snap=8, renumber=Tr
               "ifaces": base.get("ifaces", []), "meta": dict(base.get("meta", {}), frame=t)}
         if renumber:
             fr = relabel(fr, rng, gaps=True, shift=True, flip=0.0)
+            if zero_junction and rng.random() < 0.7:
+                # vertex id 0 is a legitimate id: put it on a junction (a different one in every frame)
+                js = junction_ids(fr)
+                if js and not any(v[0] == 0 for v in fr["vertices"]):
+                    fr = swap_ids(fr, js[int(rng.integers(0, len(js)))], 0)
             idmaps.append(fr["maps"]["v"])
         else:
             idmaps.append({i: i for i, _, _ in base["vertices"]})
